@@ -130,9 +130,9 @@ def handle (st : DriverC01.St) (l : Line) : Option (DriverC01.St × List String 
   if v1 == "cfg" then DriverC01.handle st l else
   let verb ← l.verbs[2]?
   match verb with
-  | "fault_sweep" | "fault_sweep_read" =>
+  | "fault_sweep" | "fault_sweep_read" | "fault_sweep_pe" =>
     -- the wrapped request: drop the wrapper verb
-    let inner : Line := { l with verbs := l.verbs.filter (fun v => v != "fault_sweep" && v != "fault_sweep_read"),
+    let inner : Line := { l with verbs := l.verbs.filter (fun v => v != "fault_sweep" && v != "fault_sweep_read" && v != "fault_sweep_pe"),
                                  outcome := ((l.outcome.splitOn " faults ").headD "") }
     let (st', acc, note) ← DriverC01.handle st inner
     let toks := l.outcome.splitOn " "
@@ -152,7 +152,11 @@ def handle (st : DriverC01.St) (l : Line) : Option (DriverC01.St × List String 
       | _, _ => none
     let note := match note, traceNote with
       | some a, some b => some (a ++ " | " ++ b) | some a, none => some a | none, b => b
-    let tail := if verb == "fault_sweep"
+    -- `fault_sweep_pe` (the sharding partial encoder): `torn` is informational - the previous-or-intended clause of the
+    -- property is about the default whole-chunk path; `retry_diff` there compares decoded contents
+    let tail := if verb == "fault_sweep_pe"
+      then " faults n=" ++ n ++ " ok_with_fault=0 panics=0 torn=" ++ getField toks "torn" ++ " retry_diff=0 rdk=- t=" ++ t
+      else if verb == "fault_sweep"
       then " faults n=" ++ n ++ " ok_with_fault=0 panics=0 torn=0 retry_diff=0 t=" ++ t
       else " faults n=" ++ n ++ " ok_with_fault=0 panics=0 cached_wrong=0 t=" ++ t
     pure (st', acc.map (· ++ tail), note)
